@@ -141,11 +141,14 @@ def body_unary(S, spec):
             except Exception as e:
                 S.structural.append((tag + ":inplace-raised", f"{type(e).__name__}: {e}"))
         # results may share memory with operands: in-place follow-ups on the *result* must not reach the operand
-        if isinstance(r, sr.AbelianArray) and spec.get("followups"):
+        rs = r if isinstance(r, (tuple, list)) else (r,)
+        if any(isinstance(r_, sr.AbelianArray) for r_ in rs) and (spec.get("followups") or name in ("qr", "svd", "svd_truncated")):
             for fname, fargs in INPLACE_FOLLOWUPS:
                 try:
                     r2 = ops.apply_unary(S, x, name, args)
-                    apply_inplace_followup(S, r2, fname, fargs)
+                    for r3 in (r2 if isinstance(r2, (tuple, list)) else (r2,)):
+                        if isinstance(r3, sr.AbelianArray):
+                            apply_inplace_followup(S, r3, fname, fargs)
                 except zt.Abort:
                     raise
                 except Exception:
@@ -221,7 +224,7 @@ BODIES = {"body_unary": body_unary, "body_binary": body_binary, "body_muldiag": 
 
 def _run(case):
     return run_case(BODIES[case["body"]], case["spec"], complex_=False, validate=False,
-                    want_sample=case.get("sample", False), seed=case.get("seed", 0), max_paths=50, wall_limit=60)
+                    want_sample=case.get("sample", False), seed=case.get("seed", 0), max_paths=120, wall_limit=90)
 
 
 CLASSES = [("Z2", False, False), ("U1", False, False), ("U1U1", False, False), ("Z4", True, False),
@@ -243,14 +246,19 @@ def build_family(tier, seed):
             arrs, _ = fam.thin(arrs, {1: None, 2: 250, 3: 200}[nd] if not thorough else {1: None, 2: 2500, 3: 2000}[nd], seed + nd)
             for k, a in enumerate(arrs):
                 ol = ops.gen_unary(a, "quick" if not thorough else "thorough")
+                heavy = [o for o in ol if o[0] in ("qr", "svd", "svd_truncated")]  # these fork on data: one case each
+                ol = [o for o in ol if o not in heavy]
                 for j in range(0, len(ol), 12):
                     cases.append(dict(a=a, ops=tuple(ol[j:j + 12]), followups=(k % 3 == 0)))
+                if k % 3 == 0:
+                    for o in heavy:
+                        cases.append(dict(a=a, ops=(o,), followups=True))
                 for ax in range(nd):
                     chs = [c for c, _ in a["indices"][ax][0]]
                     for vs in (tuple(chs), tuple(chs[:1]), tuple(chs[1:])):
                         if vs:
                             md.append(dict(a=a, axis=ax, vcharges=vs))
-        cases, _ = fam.thin(cases, 5000 if not thorough else 50000, seed)
+        cases, _ = fam.thin(cases, 3500 if not thorough else 50000, seed)
         groups[f"unary/{nm}"] = ([dict(body="body_unary", spec=c, sample=(i % 2000 == 0), seed=seed + i) for i, c in enumerate(cases)], False)
         md, _ = fam.thin(md, 800 if not thorough else 8000, seed + 5)
         groups[f"multiply_diagonal/{nm}"] = ([dict(body="body_muldiag", spec=c, seed=seed + i) for i, c in enumerate(md)], False)
@@ -295,7 +303,7 @@ def run(tier, seed, only=None):
     rep.rule = "case = (pre-state, batch of op instances[, follow-ups]); non-trivial = produced obligations"
     rep.functions = ["every operation in vlib/ops.py", "copy/copy_with of AbelianArray, FermionicArray, BlockBase", "_binary_blockwise_op", "multiply_diagonal", "tensordot_fermionic"]
     rep.bounds = {"rank": "<=3", "charges_per_index": "<=2", "block_sizes": "1..2", "sequences": "length 1, and (out-of-place op ; in-place follow-up on the result)"}
-    rep.outside = ["linalg operations are covered in C11's family", "longer sequences"]
+    rep.outside = ["eigh/solve (covered in C11's family)", "longer sequences"]
     groups = build_family(tier, seed)
     run_groups(rep, groups, _run, only)
     return rep.finish(classify)
